@@ -131,6 +131,54 @@ func Reindent(c *Change, r *rand.Rand) (*Change, bool) {
 	return d, true
 }
 
+// Respace pads the code of some lines with blanks at places where Go does not care (behind '(' and ',', around ':=',
+// '=' and binary operators written with blanks): the columns at which the tokens behind them stand move, the code stays the
+// same. A line that stands on both sides as a '-'/'+' pair of equal text gets the same padding on both.
+func Respace(c *Change, r *rand.Rand) (*Change, bool) {
+	d := CloneChange(c)
+	changed := false
+	memo := map[string]string{}
+	for i := range d.Lines {
+		t := d.Lines[i].Text
+		if strings.ContainsAny(t, "`\"'") || strings.TrimSpace(t) == "" || r.Intn(2) == 0 {
+			continue
+		}
+		if nt, ok := memo[t]; ok {
+			d.Lines[i].Text = nt
+			continue
+		}
+		pad := strings.Repeat(" ", 1+r.Intn(12))
+		var nt string
+		switch r.Intn(4) {
+		case 0:
+			if k := strings.Index(t, "("); k >= 0 {
+				nt = t[:k+1] + pad + t[k+1:]
+			}
+		case 1:
+			if k := strings.Index(t, " := "); k >= 0 {
+				nt = t[:k+4] + pad + t[k+4:]
+			} else if k := strings.Index(t, " = "); k >= 0 {
+				nt = t[:k+3] + pad + t[k+3:]
+			}
+		case 2:
+			if k := strings.LastIndex(t, ", "); k >= 0 {
+				nt = t[:k+2] + pad + t[k+2:]
+			}
+		default:
+			// in front of the first token of the line
+			k := len(t) - len(strings.TrimLeft(t, " \t"))
+			nt = t[:k] + pad + t[k:]
+		}
+		if nt == "" {
+			continue
+		}
+		memo[t] = nt
+		d.Lines[i].Text = nt
+		changed = true
+	}
+	return d, changed
+}
+
 // ContextToPair rewrites elision-free context lines as identical '-'/'+' pairs (or back).
 func ContextToPair(c *Change, r *rand.Rand) (*Change, bool) {
 	d := CloneChange(c)
